@@ -238,10 +238,205 @@ func init() {
 						res.Obligations = append(res.Obligations, o)
 					}
 				}
+				// helper form: the refill loop T lives in a helper that is handed the buffer inside S
+				// (fillGroupIndices(matchIndices, m, n)); the obligation is the same, decided in the helper
+				for _, b := range fn.Blocks {
+					if !cyclic[comp[b.Index]] {
+						continue
+					}
+					for _, in := range b.Instrs {
+						c, ok := in.(*ssa.Call)
+						if !ok {
+							continue
+						}
+						cal := c.Call.StaticCallee()
+						if cal == nil || cal.Blocks == nil || cal.Pkg == nil || !p.InModule(cal.Pkg.Pkg) {
+							continue
+						}
+						for ai, a := range c.Call.Args {
+							root := localSliceRoot(a, 0)
+							if root == nil || !scalarElem(root.Type()) || ai >= len(cal.Params) {
+								continue
+							}
+							rootBlock := root.(ssa.Instruction).Block()
+							if comp[rootBlock.Index] == comp[b.Index] {
+								continue // allocated per iteration
+							}
+							found, skip, konstFill := paramRefill(cal, cal.Params[ai])
+							if !found {
+								continue
+							}
+							// read in the caller's loop besides this call
+							read, readPos := false, ""
+							seenV := map[ssa.Value]bool{}
+							var visit func(v ssa.Value, d int)
+							visit = func(v ssa.Value, d int) {
+								if d > 4 || seenV[v] || v.Referrers() == nil {
+									return
+								}
+								seenV[v] = true
+								for _, r := range *v.Referrers() {
+									rb := r.Block()
+									if rb == nil || comp[rb.Index] != comp[b.Index] {
+										if sl, ok := r.(*ssa.Slice); ok {
+											visit(sl, d+1)
+										}
+										continue
+									}
+									switch x := r.(type) {
+									case *ssa.Slice:
+										visit(x, d+1)
+									case *ssa.IndexAddr:
+										for _, r2 := range *x.Referrers() {
+											if u, ok := r2.(*ssa.UnOp); ok {
+												read, readPos = true, p.Pos(u.Pos())
+											}
+										}
+									case ssa.CallInstruction:
+										if x != ssa.CallInstruction(c) {
+											if _, isB := x.Common().Value.(*ssa.Builtin); !isB {
+												read, readPos = true, p.Pos(x.Pos())
+											}
+										}
+									}
+								}
+							}
+							visit(root, 0)
+							if !read {
+								continue
+							}
+							dup := false
+							for _, o := range res.Obligations {
+								if o.Pos == p.Pos(root.Pos()) {
+									dup = true
+								}
+							}
+							if dup {
+								continue
+							}
+							o := core.Obligation{Key: kc.Key("R-LOCALSCRATCH", core.FuncName(fn), "local "+types.TypeString(root.Type(), nil)+" buffer refilled per iteration"), Pos: p.Pos(root.Pos()), Nontrivial: true}
+							switch {
+							case !skip:
+								o.Status = core.Discharged
+								o.Detail = "every iteration of the refill loop in " + core.FuncName(cal) + " stores to the buffer on every path (read at " + readPos + ")"
+							case konstFill:
+								o.Status = core.Discharged
+								o.Detail = core.FuncName(cal) + " constant-fills the buffer before it refills it"
+							default:
+								o.Status = core.Violated
+								o.Detail = fmt.Sprintf("the refill loop in %s can skip the store for an index (store only on one branch) and the buffer is not reset inside the outer loop: the element keeps its value from the previous iteration and is read at %s", core.FuncName(cal), readPos)
+							}
+							res.Obligations = append(res.Obligations, o)
+						}
+					}
+				}
 			}
 			return res
 		},
 	})
+}
+
+// paramRefill: fn stores non-constant values into elements of its slice parameter prm inside a loop; skip reports that
+// one iteration of that loop can reach the next without a store; konstFill that fn stores a constant into prm's
+// elements in an earlier loop of its own.
+func paramRefill(fn *ssa.Function, prm *ssa.Parameter) (found, skip, konstFill bool) {
+	comp, cyclic := blockSCCs(fn)
+	var sts []*ssa.Store
+	isPrm := func(v ssa.Value) bool {
+		for d := 0; d < 6; d++ {
+			if v == ssa.Value(prm) {
+				return true
+			}
+			sl, ok := v.(*ssa.Slice)
+			if !ok {
+				return false
+			}
+			v = sl.X
+		}
+		return false
+	}
+	for _, b := range fn.Blocks {
+		for _, in := range b.Instrs {
+			st, ok := in.(*ssa.Store)
+			if !ok {
+				continue
+			}
+			ia, ok := st.Addr.(*ssa.IndexAddr)
+			if !ok || !isPrm(ia.X) {
+				continue
+			}
+			sts = append(sts, st)
+		}
+	}
+	for _, st := range sts {
+		if _, k := st.Val.(*ssa.Const); k {
+			continue
+		}
+		tb := st.Block()
+		tSCC := comp[tb.Index]
+		if !cyclic[tSCC] {
+			continue
+		}
+		var tHeader *ssa.BasicBlock
+		for h := tb; h != nil; h = h.Idom() {
+			if comp[h.Index] != tSCC {
+				break
+			}
+			back := false
+			for _, pr := range h.Preds {
+				if h.Dominates(pr) {
+					back = true
+				}
+			}
+			if back {
+				tHeader = h
+				break
+			}
+		}
+		if tHeader == nil {
+			continue
+		}
+		found = true
+		inT := map[*ssa.BasicBlock]bool{tHeader: true}
+		for _, b := range fn.Blocks {
+			if tHeader.Dominates(b) && comp[b.Index] == tSCC && reachesWithin(b, tHeader, tHeader) {
+				inT[b] = true
+			}
+		}
+		storeBlocks := map[*ssa.BasicBlock]bool{}
+		for _, s2 := range sts {
+			if inT[s2.Block()] {
+				storeBlocks[s2.Block()] = true
+			}
+			// a constant fill that runs before T: in a block dominating T's header, or in an earlier loop of fn
+			_, k := s2.Val.(*ssa.Const)
+			sb := s2.Block()
+			if k && !inT[sb] && (sb.Dominates(tHeader) || (cyclic[comp[sb.Index]] && comp[sb.Index] != tSCC && sb.Index < tHeader.Index)) {
+				konstFill = true
+			}
+		}
+		seenB := map[*ssa.BasicBlock]bool{}
+		var dfs func(b *ssa.BasicBlock)
+		dfs = func(b *ssa.BasicBlock) {
+			if seenB[b] || !inT[b] || storeBlocks[b] {
+				return
+			}
+			seenB[b] = true
+			for _, sc := range b.Succs {
+				if sc == tHeader {
+					skip = true
+					return
+				}
+				dfs(sc)
+			}
+		}
+		for _, sc := range tHeader.Succs {
+			if inT[sc] {
+				dfs(sc)
+			}
+		}
+	}
+	return found, skip, konstFill
 }
 
 // reachesWithin: from b, following successors dominated by dom, target is reachable.
